@@ -17,3 +17,27 @@ package roi
 //@   calls_havoc
 //@   lockbalance
 //@   modifies *
+
+// ---- ROI span queries (C18) ----
+
+// spanHits(s, ...): span s = (z, y, x0, x1) in block coordinates meets the block box [min, max]
+//@ spec func spanHits(s dvid.Span, minx int32, miny int32, minz int32, maxx int32, maxy int32, maxz int32) bool = s[0] >= minz && s[0] <= maxz && s[1] >= miny && s[1] <= maxy && s[3] >= minx && s[2] <= maxx
+
+// VoxelBoundsInside: true exactly when some span meets the block box of the voxel extents; the early exit
+// on z relies on the spans being ordered by z (as getSpans returns them).
+//@ func VoxelBoundsInside
+//@   prop C18
+//@   requires blocksize[0] > 0 && blocksize[1] > 0 && blocksize[2] > 0
+//@   requires forall a int, b int :: {spans[a]} {spans[b]} 0 <= a && a <= b && b < len(spans) ==> spans[a][0] <= spans[b][0]
+//@   modifies nothing
+//@   ghost gx0 int32 = fdiv(e.MinPoint[0], blocksize[0])
+//@   ghost gy0 int32 = fdiv(e.MinPoint[1], blocksize[1])
+//@   ghost gz0 int32 = fdiv(e.MinPoint[2], blocksize[2])
+//@   ghost gx1 int32 = fdiv(e.MaxPoint[0], blocksize[0])
+//@   ghost gy1 int32 = fdiv(e.MaxPoint[1], blocksize[1])
+//@   ghost gz1 int32 = fdiv(e.MaxPoint[2], blocksize[2])
+//@   invariant loop 1: emin[0] == gx0 && emin[1] == gy0 && emin[2] == gz0 && emax[0] == gx1 && emax[1] == gy1 && emax[2] == gz1
+//@   invariant loop 1: forall k int :: {spans[k]} 0 <= k && k <= rangeindex ==> !spanHits(spans[k], gx0, gy0, gz0, gx1, gy1, gz1)
+//@   ensures result1 == nil
+//@   ensures result0 ==> (exists k int :: 0 <= k && k < len(spans) && spanHits(spans[k], fdiv(e.MinPoint[0], blocksize[0]), fdiv(e.MinPoint[1], blocksize[1]), fdiv(e.MinPoint[2], blocksize[2]), fdiv(e.MaxPoint[0], blocksize[0]), fdiv(e.MaxPoint[1], blocksize[1]), fdiv(e.MaxPoint[2], blocksize[2])))
+//@   ensures !result0 ==> (forall k int :: {spans[k]} 0 <= k && k < len(spans) ==> !spanHits(spans[k], fdiv(e.MinPoint[0], blocksize[0]), fdiv(e.MinPoint[1], blocksize[1]), fdiv(e.MinPoint[2], blocksize[2]), fdiv(e.MaxPoint[0], blocksize[0]), fdiv(e.MaxPoint[1], blocksize[1]), fdiv(e.MaxPoint[2], blocksize[2])))
